@@ -25,6 +25,19 @@ func runC11(c *Ctx) {
 	allowDisclose := g.Bool()
 	history := g.Bool()
 	reuse := g.Bool() // an application that fills in one RealmConfig value again and again
+	// without event history (whose set-up asks the realm questions an Authorizer might refuse):
+	// every realm its own Authorizer - or none - each deciding differently
+	withAuthz := !history && g.Bool()
+	azSeed := c.Spec.GenSeed
+	mkAuthz := func(uri string) (*TableAuthz, bool) {
+		if uri == "rt" {
+			uri = "template" // a realm made from the template has the template's Authorizer
+		}
+		if !withAuthz || hashStr(uri)%3 == 0 {
+			return nil, false
+		}
+		return &TableAuthz{Seed: Mix(azSeed, hashStr(uri)), DenyPerm: 150 + int(hashStr(uri)%150), FailPerm: 40, RewrPerm: 0}, hashStr(uri)%2 == 0
+	}
 	var first *router.RealmConfig
 	mk := func(uri string) (*router.RealmConfig, *MRealm) {
 		if reuse && uri == "r3" && first != nil {
@@ -33,6 +46,12 @@ func runC11(c *Ctx) {
 			first.EnableMetaKill = false
 			m := NewMRealm(uri, strict, allowDisclose)
 			m.NoKill = true
+			if az, local := mkAuthz(uri); az != nil {
+				first.Authorizer, first.RequireLocalAuthz = az, local
+				m.Authz, m.LocalAuthz = az, local
+			} else {
+				first.Authorizer, first.RequireLocalAuthz = nil, false
+			}
 			if history {
 				m.ConfigHistory("a.b", "exact", 3)
 				m.ConfigHistory("a.", "prefix", 2)
@@ -43,6 +62,11 @@ func runC11(c *Ctx) {
 		rc := &router.RealmConfig{URI: wamp.URI(uri), StrictURI: strict, AllowDisclose: allowDisclose, AnonymousAuth: true, EnableMetaKill: true,
 			Authenticators: []auth.Authenticator{&StaticAuth{Roles: seqRoles}}}
 		m := NewMRealm(uri, strict, allowDisclose)
+		if az, local := mkAuthz(uri); az != nil {
+			rc.Authorizer, rc.RequireLocalAuthz = az, local
+			m.Authz, m.LocalAuthz = az, local
+			c.Probe("realm_with_own_authorizer")
+		}
 		if history {
 			rc.TopicEventHistoryConfigs = []*router.TopicEventHistoryConfig{{Topic: "a.b", MatchPolicy: "exact", Limit: 3}, {Topic: "a.", MatchPolicy: "prefix", Limit: 2}}
 			m.ConfigHistory("a.b", "exact", 3)
